@@ -277,7 +277,13 @@ def check_fresh(roots):
       # e.g. a placeholder whose candidate list was emptied: no fresh twin can be built
       return 'unavailable', keys
     for n in treeops.preorder(root):
-      mine = facts(n)
+      try:
+        mine = facts(n)
+      except RecursionError:
+        raise
+      except Exception as e:   # pylint: disable=broad-except
+        return ('computing the derived facts of %s at %r of root %d raised %r' % (type(n).__name__, str(n.sym_path), ri, e),
+                {'fact': 'raises', 'node': treeops.kind_of(n)}), keys
       keys[id(n)] = _fact_key(mine)
       twin = fresh.sym_get(n.sym_path) if n.sym_path.keys else fresh
       if type(twin) is not type(n):
